@@ -1108,3 +1108,109 @@ pub fn gen_c19(asm: &Asm, rng: &mut Rng, sh: &mut Shards, path: &str, thorough: 
         sh.unit(&evs);
     }
 }
+
+// ---------------------------------------------------------------------------------------------
+// C15 (library half): arbitrary strings given directly to the preprocessor, data loader and interpreter
+// ---------------------------------------------------------------------------------------------
+fn fuzz_case(seed: u64, k: usize) -> (&'static str, Vec<u8>) {
+    let mut rng = Rng::new(seed.wrapping_mul(1_000_003).wrapping_add(k as u64));
+    let programs: [&str; 6] = [
+        "x: db 5\ny: dw [3 , 4]\nz: db \"hi\"\nstart:\nmov ax, word y\nadd al, byte x\nprint reg\n",
+        "macro m(a, b) -> mov a, b inc a <-\ndef f {\ninc bx\n}\nstart:\nm(ax, 7)\ncall f\nl1: loop l1\nint 3\n",
+        "set 0x100\nv: dw 0xFFFF\nstart:\nmov cx, 3\nrep movs byte\njmp e\nprint mem 0 -> 16\ne: hlt\n",
+        "start:\nmov byte es [bx, si, -3], 0b101\nxchg ax, word [bp]\nshl ax, cl\nlea si, word [di, 4]\n",
+        "start:\nprint mem :5\nprint mem 0x10:4\nprint flags\n",
+        "a: db [0]\nstart:\nmov ax, offset a\npush ax\npop word a\n",
+    ];
+    let data_lines: [&str; 6] = ["set 5", "db 7", "db [0 , 3]", "dw \"ab\"", "dw -5", "db [300]"];
+    let code_lines: [&str; 10] = ["mov ax,word y", "add al, byte [bx,si,0]", "rep movs byte", "jmp l", "print reg", "int 33", "xchg word es:[bx] ,ax", "sal byte [0],255", "ret", "lea ax , word [bp,2]"];
+    match rng.below(3) {
+        0 => ("pre", crate::checks3::mutate_bytes(rng.pick(&programs).as_bytes(), &mut rng)),
+        1 => ("data", crate::checks3::mutate_bytes(rng.pick(&data_lines).as_bytes(), &mut rng)),
+        _ => ("interp", crate::checks3::mutate_bytes(rng.pick(&code_lines).as_bytes(), &mut rng)),
+    }
+}
+
+fn fuzz_one(parser: &str, input: &[u8], asm: &Asm, mach: &mut Mach) -> &'static str {
+    let text = match std::str::from_utf8(input) {
+        Ok(s) => s.to_string(),
+        Err(_) => String::from_utf8_lossy(input).to_string(), // the library takes &str: invalid UTF-8 cannot reach it
+    };
+    match parser {
+        "pre" => match asm.assemble(&text) { Ok(_) => "ok", Err(e) if e.starts_with("PANIC") => "panic", Err(_) => "err" },
+        "data" => {
+            let dp = emulator_8086_lib::DataParser::new();
+            let mut ctr = 0usize;
+            let vm = &mut mach.vm;
+            match std::panic::catch_unwind(std::panic::AssertUnwindSafe(|| dp.parse(vm, &mut ctr, &text).is_ok())) { Ok(true) => "ok", Ok(false) => "err", Err(_) => "panic" }
+        }
+        _ => {
+            let mut ctx = emulator_8086_lib::InterpreterContext { fn_map: Default::default(), label_map: Default::default(), call_stack: vec![1] };
+            ctx.fn_map.insert("f".to_string(), 0);
+            match mach.step_fast(0, &mut ctx, &text) { ("PANIC", _) => "panic", ("ERR", _) => "err", _ => "ok" }
+        }
+    }
+}
+
+/// child: `vh fuzz <seed> <from> <total> <out>`
+pub fn fuzz_child(seed: u64, from: usize, total: usize, out: &str) {
+    use std::io::Write;
+    let asm = Asm::new();
+    let mut mach = Mach::new();
+    let mut f = std::fs::OpenOptions::new().create(true).append(true).open(out).unwrap();
+    for k in from..total {
+        let (parser, input) = fuzz_case(seed, k);
+        let t0 = std::time::Instant::now();
+        let outcome = fuzz_one(parser, &input, &asm, &mut mach);
+        let head: String = String::from_utf8_lossy(&input[..input.len().min(160)]).to_string();
+        writeln!(f, "{}", json!({"ev":"parse","parser":parser,"outcome":outcome,"k":k,"ms":t0.elapsed().as_millis() as u64,"len":input.len(),"input":head})).unwrap();
+        f.flush().unwrap();
+    }
+}
+
+pub fn gen_fuzz(sh: &mut Shards, seed: u64, total: usize, workdir: &str) {
+    let exe = std::env::current_exe().unwrap();
+    let outp = format!("{}/fuzz_events.ndjson", workdir);
+    let _ = std::fs::remove_file(&outp);
+    let done = |p: &str| std::fs::read_to_string(p).map(|s| s.lines().count()).unwrap_or(0);
+    let mut from = 0usize;
+    let mut extra: Vec<Value> = Vec::new();
+    while from < total {
+        let mut child = std::process::Command::new(&exe).arg("fuzz").arg(seed.to_string()).arg(from.to_string()).arg(total.to_string()).arg(&outp)
+            .stdout(std::process::Stdio::null()).stderr(std::process::Stdio::null()).spawn().unwrap();
+        let base = done(&outp);
+        let mut last = base;
+        let mut last_t = std::time::Instant::now();
+        let mut hung = false;
+        let status = loop {
+            match child.try_wait() {
+                Ok(Some(st)) => break st.code().unwrap_or(-1),
+                Ok(None) => {
+                    let n = done(&outp);
+                    if n != last { last = n; last_t = std::time::Instant::now(); }
+                    if last_t.elapsed() > std::time::Duration::from_secs(30) { hung = true; let _ = child.kill(); let _ = child.wait(); break -2; }
+                    std::thread::sleep(std::time::Duration::from_millis(20));
+                }
+                Err(_) => break -3,
+            }
+        };
+        let completed = from + (done(&outp) - base);
+        if completed >= total {
+            break;
+        }
+        let (parser, input) = fuzz_case(seed, completed);
+        let head: String = String::from_utf8_lossy(&input[..input.len().min(160)]).to_string();
+        extra.push(json!({"ev":"parse","parser":parser,"outcome": if hung { "hang" } else { "abort" },"k":completed,"ms":0,"len":input.len(),"input":head,"status":status}));
+        from = completed + 1;
+    }
+    for line in std::fs::read_to_string(&outp).unwrap_or_default().lines() {
+        let ev: Value = serde_json::from_str(line).unwrap();
+        sh.count(&format!("parse:{}:{}", ev["parser"].as_str().unwrap_or("?"), ev["outcome"].as_str().unwrap_or("?")), 1);
+        sh.unit(&[ev]);
+    }
+    for ev in extra {
+        sh.count("parse:child-died", 1);
+        sh.unit(&[ev]);
+    }
+    let _ = std::fs::remove_file(&outp);
+}
